@@ -31,6 +31,7 @@ struct Faults {
   uint32_t eio = 0; // read returns -1/EIO
   uint32_t enospc = 0; // write returns -1/ENOSPC (possibly after a short write)
   uint32_t eagain = 0; // non-blocking descriptors: spurious EAGAIN
+  uint32_t truncate_race = 0; // another process truncates the regular file between fstat() and read()
   uint32_t eintr_close = 0; // close() returns -1/EINTR AFTER releasing the descriptor (Linux semantics: it must not be retried)
 };
 
@@ -76,7 +77,8 @@ struct Calls {
   uint64_t bytes_read = 0, bytes_written = 0;
   uint64_t short_reads = 0; // reads that returned fewer bytes than both asked and available
   uint64_t short_writes = 0;
-  uint64_t short_reads_page = 0; // urandom reads longer than a page cut at the page boundary (signal pending)
+  uint64_t short_reads_page = 0;
+  uint64_t truncations = 0; // concurrent truncations that fired // urandom reads longer than a page cut at the page boundary (signal pending)
   uint64_t errors = 0; // calls that returned -1 by injection
   uint64_t natural_errors = 0; // calls that returned -1 for a modelled reason (ENOENT, EBADF ...)
   int last_errno = 0;
